@@ -52,7 +52,7 @@ theorem dyOf_perpendicular (n : Line) : dyOf n.perpendicular = -dxOf n := by
 
 theorem aabs_neg (a : Int) : aabs (-a) = aabs a := by unfold aabs; split <;> split <;> omega
 
-theorem dmin_perpendicular (n : Line) : dmin n.perpendicular = dmin n := by
+theorem dmin_perpendicular_bb (n : Line) : dmin n.perpendicular = dmin n := by
   have hpx := dxOf_perpendicular n
   have hpy := dyOf_perpendicular n
   unfold dmin
